@@ -21,6 +21,7 @@ import itertools
 import socket
 
 from mc import core, gen
+from mc import env as E4
 
 ID = "C19"
 LEVEL = "model_checking"
@@ -52,6 +53,7 @@ DATA = b"ab\ncd\nef"
 LONG = b"0123456789\nXYZ"
 FILL = 0xEE
 DI_ATTRS = {"_rfile", "_done", "_len"}
+CPU_GUARD = 1.0          # CPU-seconds one readinto / one wrapper schedule / one request may take (normal: < 1 ms)
 
 # ------------------------------------------------------------------ reference chunked parser
 
@@ -190,9 +192,15 @@ def step(d, k):
     """One readinto(bytearray(k)). -> (event, payload, text)"""
     b = bytearray([FILL]) * k
     try:
-        c = d.readinto(b)
+        E4.arm(CPU_GUARD)
+        try:
+            c = d.readinto(b)
+        finally:
+            E4.disarm()
     except OSError as e:
         return "OSError", b"", str(e)[:60]
+    except E4.Hang:
+        return "HANG", b"", f"readinto({k}) did not return within {CPU_GUARD} CPU-seconds"
     except Exception as e:  # noqa: BLE001
         return "EXC", b"", f"{type(e).__name__}: {e}"[:100]
     if len(b) != k:
@@ -223,11 +231,13 @@ def explore_raw(raw: bytes, sizes, R, meta):
             trans += 1
             s2 = sched + (k,)
             R.use("A-event:" + ev)
-            if ev in ("RESIZED", "BADCOUNT", "WROTE-BEYOND", "EXC"):
+            if ev in ("RESIZED", "BADCOUNT", "WROTE-BEYOND", "EXC", "HANG"):
                 sig = {"RESIZED": "readinto-resized-buffer", "BADCOUNT": "readinto-count-out-of-range",
-                       "WROTE-BEYOND": "readinto-wrote-beyond-count",
+                       "WROTE-BEYOND": "readinto-wrote-beyond-count", "HANG": "endless-read",
                        "EXC": "unrelated-exception:" + text.split(":")[0]}[ev]
                 report(R, "A:graph:" + sig, raw, interps, ("readinto",) + s2, meta, sig, text)
+                if ev == "HANG":
+                    return len(seen), trans, True      # one endless read per input is enough (each costs CPU_GUARD)
                 continue
             new = delivered + payload
             sig = judge(interps, new, ev)
@@ -248,7 +258,7 @@ def explore_raw(raw: bytes, sizes, R, meta):
             if key not in seen:
                 seen.add(key)
                 queue.append((d2, new, s2))
-    return len(seen), trans
+    return len(seen), trans, False
 
 
 def report(R, sig_full, raw, interps, schedule, meta, sig, text):
@@ -270,9 +280,9 @@ def run_schedule(raw: bytes, schedule):
         at_eof = False
         for k in sizes:
             ev, payload, text = step(d, k)
-            if ev in ("RESIZED", "BADCOUNT", "WROTE-BEYOND", "EXC"):
+            if ev in ("RESIZED", "BADCOUNT", "WROTE-BEYOND", "EXC", "HANG"):
                 sig = {"RESIZED": "readinto-resized-buffer", "BADCOUNT": "readinto-count-out-of-range",
-                       "WROTE-BEYOND": "readinto-wrote-beyond-count",
+                       "WROTE-BEYOND": "readinto-wrote-beyond-count", "HANG": "endless-read",
                        "EXC": "unrelated-exception:" + text.split(":")[0]}[ev]
                 return sig, delivered, ev, text
             if at_eof:
@@ -307,6 +317,7 @@ def run_schedule(raw: bytes, schedule):
 
         d.readinto = spy_readinto
     try:
+        E4.arm(CPU_GUARD)
         if mode == "readline":
             for _ in range(len(raw) + 3):
                 r = f.readline()
@@ -347,9 +358,13 @@ def run_schedule(raw: bytes, schedule):
                     return sig, delivered, "data", ""
     except OSError as e:
         end, text = "OSError", str(e)[:60]
+    except E4.Hang:
+        return "endless-read", delivered, "HANG", f"schedule did not finish within {CPU_GUARD} CPU-seconds"
     except Exception as e:  # noqa: BLE001
         text = f"{type(e).__name__}: {e}"[:100]
         return "unrelated-exception:" + type(e).__name__, delivered, "EXC", text
+    finally:
+        E4.disarm()
     return judge(interps, delivered, end), delivered, end, text
 
 
@@ -435,7 +450,13 @@ def serve(app, raw: bytes, protocol: str):
         b.sendall(raw)
         b.shutdown(socket.SHUT_WR)
         srv = StubServer(app)
-        handler_class(protocol)(a, ("127.0.0.1", 1234), srv)
+        E4.arm(CPU_GUARD)
+        try:
+            handler_class(protocol)(a, ("127.0.0.1", 1234), srv)
+        except E4.Hang:
+            srv.logs.append(("error", f"handler did not finish within {CPU_GUARD} CPU-seconds (endless loop)"))
+        finally:
+            E4.disarm()
         a.close()
         out = b""
         while True:
@@ -751,10 +772,12 @@ def check_raw(raw, n, R, tier, meta, graph=True, wrappers=True):
     interps = interpretations(raw)
     if graph:
         sizes = list(range(1, n + 3))
-        s, t = explore_raw(raw, sizes, R, meta)
+        s, t, hung = explore_raw(raw, sizes, R, meta)
         R.count("states", s)
         R.count("transitions", t)
         R.count("executions", t)
+        if hung:
+            return
     if wrappers:
         for sched in wrapper_schedules(n, P["wdepth"]):
             sig, delivered, end, text = run_schedule(raw, sched)
@@ -765,6 +788,8 @@ def check_raw(raw, n, R, tier, meta, graph=True, wrappers=True):
             if sig:
                 report(R, f"A:{'buffered' if sched[0].startswith('br') else sched[0]}:" + sig, raw, interps, sched,
                        meta, sig, text)
+                if end == "HANG":
+                    break
     for _d, e, r in interps:
         R.use("ref:" + r)
 
@@ -802,7 +827,7 @@ def run_unit(unit, R, tier):
                 R.nontrivial(raw)
                 R.use("hex-letter:" + hexf)
                 interps = interpretations(raw)
-                s, t = explore_raw(raw, [1, 3, 9, 10, 11, 14], R, meta)
+                s, t, _hung = explore_raw(raw, [1, 3, 9, 10, 11, 14], R, meta)
                 R.count("states", s)
                 R.count("transitions", t)
                 R.count("executions", t)
